@@ -429,7 +429,7 @@ impl Observer {
 //@ name: drop
 //@ as: fn drop__other_clones_alive(&mut self)
 //@ rule R8: `self.internal.disallow_future_use(&state);` => `vx_forbidden();` x1
-//@ rule R8 re: `self\.internal\s*\.state\s*\.set\(super::internal_observer::ObserverState::Disallowed\);` => `vx_forbidden();` x1
+//@ rule R8 re: `self\.internal\s*\.state\s*\.set\(ObserverState::Disallowed\);` => `vx_forbidden();` x1
 //@ props: C10 C05
 //@ contract:
 //@|     requires rc_count(&old(self).sentinel) >= 2,       // another clone of this observer handle is alive
@@ -444,7 +444,7 @@ impl Observer {
 //@ as: fn drop__last_clone_state_alive(&mut self)
 //@ panics: diverge
 //@ rule R8: `self.internal.disallow_future_use(&state);` => `vx_diverge();` x1
-//@ rule R8 re: `self\.internal\s*\.state\s*\.set\(super::internal_observer::ObserverState::Disallowed\);` => `vx_forbidden();` x1
+//@ rule R8 re: `self\.internal\s*\.state\s*\.set\(ObserverState::Disallowed\);` => `vx_forbidden();` x1
 //@ props: C10 C05
 //@ contract:
 //@|     requires rc_count(&old(self).sentinel) <= 1, shared_state_alive(&*old(self).internal),
@@ -458,7 +458,7 @@ impl Observer {
 //@ as: fn drop__last_clone_state_gone(&mut self)
 //@ panics: diverge
 //@ rule R8: `self.internal.disallow_future_use(&state);` => `vx_forbidden();` x1
-//@ rule R8 re: `self\.internal\s*\.state\s*\.set\(super::internal_observer::ObserverState::Disallowed\);` => `vx_diverge();` x1
+//@ rule R8 re: `self\.internal\s*\.state\s*\.set\(ObserverState::Disallowed\);` => `vx_diverge();` x1
 //@ props: C10
 //@ contract:
 //@|     requires rc_count(&old(self).sentinel) <= 1, !shared_state_alive(&*old(self).internal),
